@@ -276,6 +276,10 @@ func (d *driver) sendItem(phase string, idx int, it item) {
 
 func (d *driver) startReader() <-chan struct{} {
 	return d.goSafe(func() {
+		if d.sc.LateReaderMS > 0 {
+			time.Sleep(time.Duration(d.sc.LateReaderMS) * time.Millisecond)
+			d.count("late_reader_scenarios", 1)
+		}
 		buf := make([]byte, d.sc.ReadBuf)
 		zero := 0
 		for {
